@@ -42,11 +42,14 @@ func InterpolateInExponent[G algebra.PrimeGroupElement[G, F], F algebra.PrimeFie
 	for c := range xs {
 		num := group.OpIdentity()
 		for r, y := range ys {
-			m, err := denMatrixSquare.Minor(r, c)
-			if err != nil {
-				return nil, errs.Wrap(err).WithMessage("could not compute minor")
+			d := den.Mul(denInv) // 1: the only cofactor of a 1x1 matrix, which has no minors
+			if len(xs) > 1 {
+				m, err := denMatrixSquare.Minor(r, c)
+				if err != nil {
+					return nil, errs.Wrap(err).WithMessage("could not compute minor")
+				}
+				d = m.Determinant()
 			}
-			d := m.Determinant()
 			if (r+c)%2 != 0 {
 				d = d.Neg()
 			}
